@@ -17,6 +17,10 @@ def classes_of(lines):
                     cl.add("rep-has-option")
             if n[0] == 'alt' and any(x[0] == 'opt' for c in n[1] for x in walk(c)):
                 cl.add("option-alternation")
+            # an alternation one of whose branches contains another alternation (inside a group or an optional): the
+            # parenthesised text is split at every `|`, whatever its depth
+            if n[0] == 'alt' and any(x[0] == 'alt' for c in n[1] for x in walk(c) if x is not n):
+                cl.add("nested-alternation")
         nodes = list(walk(l))
         has_opt = any(x[0] in ('opt', 'anyopts') for x in nodes)
         if has_opt and any(x[0] == 'rep' for x in nodes):
